@@ -106,8 +106,8 @@ pub fn run(prop: &str, a: &Args, rep: &mut Report) {
     let mut rng = Rng::derive(a.seed, a.shard, 3);
     let mut li = 0u64;
     for (i, n) in mix.long_lens.iter().enumerate() {
-        if cfg!(miri) {
-            break; // far too slow under the interpreter-of-the-interpreter
+        if cfg!(miri) || (a.variant == "valgrind" && *n > 40_000) {
+            break; // far too slow under Miri; under valgrind only the shorter long programs are run
         }
         for variant in 0..5u64 {
             // spread (length, variant) cells over shards
